@@ -5,4 +5,6 @@ import IweModel.Props.C01
 #print axioms Iwe.C01.forest_panics_on_code_first_item
 #print axioms Iwe.C01.project_tokens
 #print axioms Iwe.C01.pipeline_tokens
+#print axioms Iwe.C01.reader_content
+#print axioms Iwe.C01.reader_content_html_text_counterexample
 #print axioms Iwe.C01.frontmatter_verbatim
